@@ -40,6 +40,61 @@ def entries(g):
     return sorted(set(ent))
 
 
+def eval_cover(ctx):
+    """functions whose every abstract state is evaluated by a rule of this run with panics modelled (indexing, slicing, unwrap/expect,
+    explicit panics, usize under/overflow): name suffix -> (kinds of site discharged, function returning None or the panicking state)"""
+    from . import stringx, headerx
+
+    def dec(name):
+        def run():
+            if name == "string":
+                for r, lim, pz, u8 in stringx.string_cases():
+                    out = stringx.evaluate(ctx, "string", r, lim, pz, u8)
+                    if "panic" in out:
+                        return "string(bytes left=%d, limit=%s, first NUL at %s): %s" % (r, lim, pz, out["panic"])
+                return None
+            for inst, out, good, reft in stringx.hand_states(ctx, name):
+                if "panic" in out:
+                    return "%s: %s" % (inst, out["panic"])
+            return None
+        return run
+
+    def hdr():
+        for inst, pb, sample in headerx.header_problems(ctx):
+            if pb and ("panics" in pb or "not analysable" in pb):
+                return "%s %s" % (inst, pb)
+        return None
+
+    def inst():
+        for i, pb, _ in headerx.parse_inst_problems(ctx):
+            if pb and ("panics" in pb or "not analysable" in pb):
+                return "%s %s" % (i, pb)
+        return None
+
+    def load(name):
+        def run():
+            pb = headerx.load_problem(ctx, name)
+            return pb if pb and "panics" in pb else None
+        return run
+    table = {"Decoder::string": (("call", "assert"), dec("string")), "Decoder::words": (("call", "assert"), dec("words")),
+             "Decoder::bit64": (("call",), dec("bit64")), "Decoder::word": (("call", "assert"), dec("id")),
+             "Parser::parse_header": (("call",), hdr), "Parser::parse_inst": (("call", "assert:Overflow(Sub)"), inst), "loader::load_bytes": (("call",), load("load_bytes")),
+             "loader::load_words": (("call",), load("load_words"))}
+    memo = {}
+
+    def covered(full, kind, detail=""):
+        for suffix, (kinds, fn) in table.items():
+            if (kind in kinds or "%s:%s" % (kind, detail) in kinds) and (suffix in full or suffix in mir_name(full)) and "{closure" not in full.split(suffix)[-1][:0]:
+                if suffix not in memo:
+                    try:
+                        memo[suffix] = fn()
+                    except Exception as ex:      # not analysable: no discharge
+                        memo[suffix] = "not analysable: %s" % ex
+                return memo[suffix] is None
+        return False
+    return covered
+
+
 def census(ctx, chk, g, reach, label):
     """classify and audit every site of the reachable functions; returns the per-entry counts"""
     R1 = chk.rule("R-PANIC-1", "every external callee reached from the entry points is classified in O-STD (no-panic / may-panic / "
@@ -50,6 +105,7 @@ def census(ctx, chk, g, reach, label):
     callees = set()
     unclassified = set()
     nsites = 0
+    covered = eval_cover(ctx)
     for k in sorted(reach):
         fn = g.fns[k]
         name = mir_name(k) if "<" not in k.split("::", 1)[1][:1] else k
@@ -68,6 +124,9 @@ def census(ctx, chk, g, reach, label):
                 if cls != "may-panic":
                     continue
             nsites += 1
+            if covered(full, s["kind"], s["detail"]):
+                chk.ok(R2, "%s:%s:%s:auto-eval" % (short(full), s["kind"], s["detail"][:40]))
+                continue
             file = s["file"]
             fam = None
             if file.endswith("autogen_decode_operand.rs") and s["kind"] == "assert" and s["detail"] == "Overflow(Sub)":
@@ -208,45 +267,26 @@ def discharge(ctx, chk, g, with_main=False):
     mir = ctx.mir("rspirv")
     user_unsafe = [u for u in mir.unsafes if u["user"]]
     f = ctx.rspirv.fn(PAR, "parse_words")
-    b = f["sig"]["params"][0][0]
-    t = [show_stmt(s).replace("* const", "*const") for s in f["body"][1]]
-    shape = len(t) == 3 and t[0] == "let len = (%s.as_ref().len() * 4);" % b and \
-        t[1] == "let buf = unsafe { slice::from_raw_parts((%s.as_ref().as_ptr() as *const u8), len) };" % b and t[2].startswith("Parser::new(buf,")
-    chk.check(R3, len(user_unsafe) == 1 and mir_name(user_unsafe[0]["fn"]).endswith("parser::parse_words") and shape and "[u32]" in f["sig"]["params"][0][1],
-              "parse_words_unsafe", "user unsafe blocks: %s; parse_words is %s" % ([mir_name(u["fn"]) for u in user_unsafe], t),
+    from . import headerx, stringx
+    try:
+        epb = headerx.parse_entry_problem(ctx, "parse_words")
+    except Anchor as ex:
+        epb = "not analysable: %s" % ex
+    chk.check(R3, len(user_unsafe) == 1 and mir_name(user_unsafe[0]["fn"]).endswith("parser::parse_words") and epb is None and "[u32]" in f["sig"]["params"][0][1],
+              "parse_words_unsafe", "user unsafe blocks: %s; parse_words evaluated: from_raw_parts must get the pointer of binary.as_ref() cast to *const u8 and "
+              "its length * 4: %s" % ([mir_name(u["fn"]) for u in user_unsafe], epb),
               raw.where("parse_words", None, "parser.rs"), key="C04:unsafe")
     for cname in ("rspirv_dis",):
         uu = [u for u in ctx.mir(cname).unsafes if u["user"]]
         chk.check(R3, not uu, "no-unsafe:" + cname, "unsafe blocks in %s: %s" % (cname, [u["fn"] for u in uu]), None)
 
-    # parse_header indexing under Ok(words) of words(5)
-    f = ctx.rspirv.fn(PAR, "parse_header", "Parser")
-    idx = sites(f["body"], lambda n: n[0] == "index")
-    hn = {c["name"]: int_of(c["init"]) for c in ctx.rspirv.items(PAR, "const")}.get("HEADER_NUM_WORDS")
-    ok = bool(idx)
-    for n, conds in idx:
-        i = int_of(n[2])
-        src = path_of(n[1])
-        if not (i is not None and hn is not None and i < hn and any(re.match(r"^self\.decoder\.words\(HEADER_NUM_WORDS\) matches Ok\(%s\)$" % src, c) for c in conds)):
-            ok = False
-    chk.check(R3, ok, "parse_header_index", "header words indexed outside the Ok(words) arm of words(HEADER_NUM_WORDS) or beyond it: %s" % [(show(n), c) for n, c in idx],
-              raw.where("parse_header", "Parser"))
-
-    # parse_inst subtractions
-    f = ctx.rspirv.fn(PAR, "parse_inst", "Parser")
-    subs = sites(f["body"], lambda n: n[0] == "binary" and n[1] == "-")
-    ok = 1 <= len(subs) <= 3
-    for n, conds in subs:
-        t_ = show(n)
-        c = " && ".join(conds)
-        if t_.startswith("(self.decoder.offset() - "):
-            ok = ok and ("let Ok(" in c or "matches Ok(" in c) and "self.decoder.word()" in c
-        elif re.match(r"^\(\w+ - 1\)$", t_):
-            v = t_[1:].split(" ")[0]
-            ok = ok and ("!((%s == 0))" % v) in c
-        else:
-            ok = False
-    chk.check(R3, ok, "parse_inst_guards", "subtractions in parse_inst: %s" % [(show(n), c) for n, c in subs], raw.where("parse_inst", "Parser"))
+    # parse_header / parse_inst: no evaluated case panics (indexing of the five header words; offset() - 4 and word count - 1 at the
+    # smallest offset and word count at which they are reached)
+    hp = [(i, pb) for i, pb, _ in headerx.header_problems(ctx) if pb and ("panics" in pb or "not analysable" in pb)]
+    wp = stringx.hand_problem(ctx, "words")
+    chk.check(R3, not hp and wp is None, "parse_header_index", "parse_header: %s; words(n): %s" % (hp, wp), raw.where("parse_header", "Parser"))
+    ip = [(i, pb) for i, pb, _ in headerx.parse_inst_problems(ctx) if pb and ("panics" in pb or "not analysable" in pb)]
+    chk.check(R3, not ip, "parse_inst_guards", "parse_inst: %s" % ip, raw.where("parse_inst", "Parser"))
 
     # parse_operands: no abstract quantifier case panics (index within the operand list, asserts hold for the rows that can reach them)
     from . import quantx
